@@ -92,3 +92,24 @@ def begin_run(np_seed=0):
     UUID_SEAM.reset(0)
     if np_seed is not None:  # None: the history owns the global RNG state (C16)
         np.random.seed(np_seed % (2**32))
+
+
+_DASK_CONFIG_SNAPSHOT = [None]
+
+
+def reset_process_state():
+    """Called before every simulated run: process-global state that the code under test (or a
+    dependency) may have changed is put back, so that a run never depends on the runs that
+    happened to precede it in the same worker process.  A leak therefore shows only inside the
+    history of one run - where it is replayable - and not as cross-run contamination."""
+    import copy
+    import warnings
+
+    import dask
+
+    if _DASK_CONFIG_SNAPSHOT[0] is None:
+        _DASK_CONFIG_SNAPSHOT[0] = copy.deepcopy(dask.config.config)
+    elif dask.config.config != _DASK_CONFIG_SNAPSHOT[0]:
+        dask.config.config.clear()
+        dask.config.config.update(copy.deepcopy(_DASK_CONFIG_SNAPSHOT[0]))
+    warnings.filterwarnings("ignore")
